@@ -150,7 +150,7 @@ structure Store where
 
 structure St where
   stack : List V
-  locals : List V
+  locals : List (Nat × V)         -- the frame: local uid ↦ value; absent = the zero of its type
   store : Store
 
 inductive Out
@@ -167,9 +167,10 @@ inductive CallRes
   | oog
   | unsup (what : String)
 
+/-- `call` takes the *uid* of the callee; `reLoop` the local table of the running function -/
 structure Rec where
   call : Nat → List V → Store → CallRes
-  reLoop : BT → SL → St → Out
+  reLoop : List (Nat × String) → BT → SL → St → Out
 
 /-! ## numbers -/
 
@@ -378,20 +379,46 @@ def addrLimit (is64 : Bool) : Nat := if is64 then 281474976710656 else 65536
 
 /-! ## the module as the interpreter sees it -/
 
+/-- a function, known by its uid (its position in `Env.ufuncs`); `lt` lists its locals, parameters
+    first: local index ↦ (uid of the local, type) -/
 structure FuncInfo where
   sig : Sig
   imp : Option (String × String)          -- imported: module, field
-  locals : List String
+  lt : List (Nat × String)
   body : SL
 
+/-- `ftab`: function index ↦ uid.  Values, tables and calls-in-progress name functions by uid, so
+    a renumbering of the index space changes `ftab` (and the operands in the bodies) and nothing
+    else. -/
 structure Env where
   types : List Sig
-  funcs : List FuncInfo
+  ftab : List Nat
+  ufuncs : List FuncInfo
 
-/-- signatures of the function index space -/
-def Env.fsigs (E : Env) : List Sig := E.funcs.map (·.sig)
+/-- the module with every body elided -/
+def Env.elide (E : Env) : Env := { E with ufuncs := E.ufuncs.map fun fi => { fi with body := fi.body.elide } }
+
+/-- signatures by uid -/
+def Env.usigs (E : Env) : List Sig := E.ufuncs.map (·.sig)
+
+/-- what an operator may consult besides the state -/
+structure Ctx where
+  T : List Sig                 -- type index ↦ signature
+  FT : List Nat                -- function index ↦ uid
+  US : List Sig                -- uid ↦ signature
+  LT : List (Nat × String)     -- local index ↦ (uid, type), of the running function
+
+def Env.ctx (E : Env) (lt : List (Nat × String)) : Ctx := ⟨E.types, E.ftab, E.usigs, lt⟩
 
 abbrev CallFn := Nat → List V → Store → CallRes
+
+def getLocal (fr : List (Nat × V)) (u : Nat) (ty : String) : V :=
+  match fr.find? (·.1 = u) with
+  | some p => p.2
+  | none => zeroOf ty
+
+def setLocal (fr : List (Nat × V)) (u : Nat) (v : V) : List (Nat × V) :=
+  (u, v) :: fr.filter (·.1 ≠ u)
 
 def arity (T : List Sig) : BT → Nat × Nat
   | .empty => (0, 0)
@@ -415,9 +442,8 @@ def join (sep : String) (l : List String) : String :=
   | [] => ""
   | h :: t => t.foldl (fun a b => a ++ sep ++ b) h
 
-/-- one operator that is not a block; `T` the type section, `FS` the signature of every function,
-    `call` the meaning of a call -/
-def execOp (T FS : List Sig) (call : CallFn) (o : Op) (s : St) : Out :=
+/-- operators whose meaning does not depend on the index tables -/
+def execPlain (o : Op) (s : St) : Out :=
   let n := o.name
   let st := s.store
   if n = "Nop" then .ok s
@@ -437,55 +463,6 @@ def execOp (T FS : List Sig) (call : CallFn) (o : Op) (s : St) : Out :=
         | _, _ => .unsup "br_table")
      | _ => .unsup "br_table")
   else if n = "Return" then .ret s
-  else if n = "Call" then
-    (match o.args with
-     | [.ref _ f] =>
-       (match FS[f]? with
-        | some sg =>
-          let np := sg.1.length
-          let args := (s.stack.take np).reverse
-          (match call f args st with
-           | .ok rs st' => .ok { s with stack := rs.reverse ++ s.stack.drop np, store := st' }
-           | .trap m st' => .trap m st'
-           | .oog => .oog
-           | .unsup w => .unsup w)
-        | none => .unsup "call: no such function")
-     | _ => .unsup "call")
-  else if n = "CallIndirect" then
-    (match o.args, s.stack with
-     | [.ref _ y, .ref _ t], i :: r =>
-       (match st.tabs[t]?, T[y]? with
-        | some tb, some sig =>
-          (match tb.elems[i.payload]? with
-           | none => .trap "undefined element" st
-           | some (.fref none) => .trap "uninitialized element" st
-           | some (.fref (some f)) =>
-             (match FS[f]? with
-              | some fsg =>
-                if fsg ≠ sig then .trap "indirect call type mismatch" st else
-                let np := sig.1.length
-                let args := (r.take np).reverse
-                (match call f args st with
-                 | .ok rs st' => .ok { s with stack := rs.reverse ++ r.drop np, store := st' }
-                 | .trap m st' => .trap m st'
-                 | .oog => .oog
-                 | .unsup w => .unsup w)
-              | none => .unsup "call_indirect: dangling")
-           | some _ => .unsup "call_indirect: not a funcref")
-        | _, _ => .unsup "call_indirect: no table/type")
-     | _, _ => .unsup "call_indirect")
-  else if n = "LocalGet" then
-    (match o.args with
-     | [.ref _ x] => (match s.locals[x]? with | some v => .ok { s with stack := v :: s.stack } | none => .unsup "local.get")
-     | _ => .unsup "local.get")
-  else if n = "LocalSet" then
-    (match o.args, s.stack with
-     | [.ref _ x], v :: r => if x < s.locals.length then .ok { s with stack := r, locals := s.locals.set x v } else .unsup "local.set"
-     | _, _ => .unsup "local.set")
-  else if n = "LocalTee" then
-    (match o.args, s.stack with
-     | [.ref _ x], v :: r => if x < s.locals.length then .ok { s with stack := v :: r, locals := s.locals.set x v } else .unsup "local.tee"
-     | _, _ => .unsup "local.tee")
   else if n = "GlobalGet" then
     (match o.args with
      | [.ref _ g] => (match st.globals[g]? with | some v => .ok { s with stack := v :: s.stack } | none => .unsup "global.get")
@@ -495,8 +472,6 @@ def execOp (T FS : List Sig) (call : CallFn) (o : Op) (s : St) : Out :=
      | [.ref _ g], v :: r =>
        if g < st.globals.length then .ok { s with stack := r, store := { st with globals := st.globals.set g v } } else .unsup "global.set"
      | _, _ => .unsup "global.set")
-  else if n = "RefFunc" then
-    (match o.args with | [.ref _ f] => .ok { s with stack := .fref (some f) :: s.stack } | _ => .unsup "ref.func")
   else if n = "MemorySize" then
     (match o.args with
      | .ref _ m :: _ => (match st.mems[m]? with
@@ -653,6 +628,118 @@ def execOp (T FS : List Sig) (call : CallFn) (o : Op) (s : St) : Out :=
       | some (.error e) => .trap e st
       | none => .unsup n
 
+/-- operators that consult the index tables: calls, `ref.func`, locals -/
+def execSpecial (C : Ctx) (call : CallFn) (o : Op) (s : St) : Out :=
+  let n := o.name
+  let st := s.store
+  if n = "Call" then
+    (match o.args with
+     | [.ref _ f] =>
+       (match (C.FT[f]?).bind fun u => (C.US[u]?).map fun sg => (u, sg) with
+        | some (u, sg) =>
+          let np := sg.1.length
+          let args := (s.stack.take np).reverse
+          (match call u args st with
+           | .ok rs st' => .ok { s with stack := rs.reverse ++ s.stack.drop np, store := st' }
+           | .trap m st' => .trap m st'
+           | .oog => .oog
+           | .unsup w => .unsup w)
+        | none => .unsup "call: no such function")
+     | _ => .unsup "call")
+  else if n = "CallIndirect" then
+    (match o.args, s.stack with
+     | [.ref _ y, .ref _ t], i :: r =>
+       (match st.tabs[t]?, C.T[y]? with
+        | some tb, some sig =>
+          (match tb.elems[i.payload]? with
+           | none => .trap "undefined element" st
+           | some (.fref none) => .trap "uninitialized element" st
+           | some (.fref (some f)) =>
+             (match C.US[f]? with
+              | some fsg =>
+                if fsg ≠ sig then .trap "indirect call type mismatch" st else
+                let np := sig.1.length
+                let args := (r.take np).reverse
+                (match call f args st with
+                 | .ok rs st' => .ok { s with stack := rs.reverse ++ r.drop np, store := st' }
+                 | .trap m st' => .trap m st'
+                 | .oog => .oog
+                 | .unsup w => .unsup w)
+              | none => .unsup "call_indirect: dangling")
+           | some _ => .unsup "call_indirect: not a funcref")
+        | _, _ => .unsup "call_indirect: no table/type")
+     | _, _ => .unsup "call_indirect")
+  else if n = "LocalGet" then
+    (match o.args with
+     | [.ref _ x] => (match C.LT[x]? with
+        | some (u, ty) => .ok { s with stack := getLocal s.locals u ty :: s.stack }
+        | none => .unsup "local.get")
+     | _ => .unsup "local.get")
+  else if n = "LocalSet" then
+    (match o.args, s.stack with
+     | [.ref _ x], v :: r => (match C.LT[x]? with
+        | some (u, _) => .ok { s with stack := r, locals := setLocal s.locals u v }
+        | none => .unsup "local.set")
+     | _, _ => .unsup "local.set")
+  else if n = "LocalTee" then
+    (match o.args, s.stack with
+     | [.ref _ x], v :: r => (match C.LT[x]? with
+        | some (u, _) => .ok { s with stack := v :: r, locals := setLocal s.locals u v }
+        | none => .unsup "local.tee")
+     | _, _ => .unsup "local.tee")
+  else if n = "RefFunc" then
+    (match o.args with
+     | [.ref _ f] => (match C.FT[f]? with
+        | some u => .ok { s with stack := .fref (some u) :: s.stack }
+        | none => .unsup "ref.func")
+     | _ => .unsup "ref.func")
+  else if n = "ReturnCall" then
+    (match o.args with
+     | [.ref _ f] =>
+       (match (C.FT[f]?).bind fun u => (C.US[u]?).map fun sg => (u, sg) with
+        | some (u, sg) =>
+          let np := sg.1.length
+          let args := (s.stack.take np).reverse
+          (match call u args st with
+           | .ok rs st' => .ret { s with stack := rs.reverse ++ s.stack.drop np, store := st' }
+           | .trap m st' => .trap m st'
+           | .oog => .oog
+           | .unsup w => .unsup w)
+        | none => .unsup "return_call: no such function")
+     | _ => .unsup "return_call")
+  else if n = "ReturnCallIndirect" then
+    (match o.args, s.stack with
+     | [.ref _ y, .ref _ t], i :: r =>
+       (match st.tabs[t]?, C.T[y]? with
+        | some tb, some sig =>
+          (match tb.elems[i.payload]? with
+           | none => .trap "undefined element" st
+           | some (.fref none) => .trap "uninitialized element" st
+           | some (.fref (some f)) =>
+             (match C.US[f]? with
+              | some fsg =>
+                if fsg ≠ sig then .trap "indirect call type mismatch" st else
+                let np := sig.1.length
+                let args := (r.take np).reverse
+                (match call f args st with
+                 | .ok rs st' => .ret { s with stack := rs.reverse ++ r.drop np, store := st' }
+                 | .trap m st' => .trap m st'
+                 | .oog => .oog
+                 | .unsup w => .unsup w)
+              | none => .unsup "call_indirect: dangling")
+           | some _ => .unsup "call_indirect: not a funcref")
+        | _, _ => .unsup "call_indirect: no table/type")
+     | _, _ => .unsup "call_indirect")
+  else .unsup n
+
+def isSpecial (n : String) : Bool :=
+  n = "Call" || n = "CallIndirect" || n = "LocalGet" || n = "LocalSet" || n = "LocalTee" || n = "RefFunc" ||
+  n = "ReturnCall" || n = "ReturnCallIndirect"
+
+/-- one operator that is not a block; `call` is the meaning of a call (by uid) -/
+def execOp (C : Ctx) (call : CallFn) (o : Op) (s : St) : Out :=
+  if isSpecial o.name then execSpecial C call o s else execPlain o s
+
 /-- what a block does with the outcome of its body -/
 def finishBlock (nr h : Nat) : Out → Out
   | .br 0 s' => .ok { s' with stack := exitStack s'.stack nr h }
@@ -660,38 +747,38 @@ def finishBlock (nr h : Nat) : Out → Out
   | o => o
 
 mutual
-def execI (T FS : List Sig) (R : Rec) : SI → St → Out
-  | .op o, s => execOp T FS R.call o s
+def execI (C : Ctx) (R : Rec) : SI → St → Out
+  | .op o, s => execOp C R.call o s
   | .block bt b, s =>
-    let ar := arity T bt
-    finishBlock ar.2 (s.stack.length - ar.1) (execL T FS R b s)
+    let ar := arity C.T bt
+    finishBlock ar.2 (s.stack.length - ar.1) (execL C R b s)
   | .loop bt b, s =>
-    let ar := arity T bt
-    match execL T FS R b s with
-    | .br 0 s' => R.reLoop bt b { s' with stack := exitStack s'.stack ar.1 (s.stack.length - ar.1) }
+    let ar := arity C.T bt
+    match execL C R b s with
+    | .br 0 s' => R.reLoop C.LT bt b { s' with stack := exitStack s'.stack ar.1 (s.stack.length - ar.1) }
     | .br (d+1) s' => .br d s'
     | o => o
   | .ite bt t e, s =>
-    let ar := arity T bt
+    let ar := arity C.T bt
     match s.stack with
     | .i32 c :: r =>
       let s1 := { s with stack := r }
-      if c ≠ 0 then finishBlock ar.2 (r.length - ar.1) (execL T FS R t s1)
-      else finishBlock ar.2 (r.length - ar.1) (execL T FS R e s1)
+      if c ≠ 0 then finishBlock ar.2 (r.length - ar.1) (execL C R t s1)
+      else finishBlock ar.2 (r.length - ar.1) (execL C R e s1)
     | _ => .unsup "if"
-def execL (T FS : List Sig) (R : Rec) : SL → St → Out
+def execL (C : Ctx) (R : Rec) : SL → St → Out
   | .nil, s => .ok s
   | .cons h t, s =>
-    match execI T FS R h s with
-    | .ok s' => execL T FS R t s'
+    match execI C R h s with
+    | .ok s' => execL C R t s'
     | o => o
 end
 
-/-- call of function `f` with the next-lower `Rec` -/
-def callFn (E : Env) (R : Rec) (f : Nat) (args : List V) (st0 : Store) : CallRes :=
+/-- call of the function with uid `u`, with the next-lower `Rec` -/
+def callFn (E : Env) (R : Rec) (u : Nat) (args : List V) (st0 : Store) : CallRes :=
   if st0.fuel = 0 then .oog else
   let st : Store := { st0 with fuel := st0.fuel - 1 }
-  match E.funcs[f]? with
+  match E.ufuncs[u]? with
   | none => .unsup "call: no such function"
   | some fi =>
     match fi.imp with
@@ -700,9 +787,9 @@ def callFn (E : Env) (R : Rec) (f : Nat) (args : List V) (st0 : Store) : CallRes
       .ok (hostResults name args fi.sig.2)
         { st with trace := (name ++ "(" ++ join "," (args.map showV) ++ ")") :: st.trace }
     | none =>
-      let s0 : St := ⟨[], args ++ fi.locals.map zeroOf, st⟩
+      let s0 : St := ⟨[], ((fi.lt.take fi.sig.1.length).map (·.1)).zip args, st⟩
       let nr := fi.sig.2.length
-      match execL E.types E.fsigs R fi.body s0 with
+      match execL (E.ctx fi.lt) R fi.body s0 with
       | .ok s => .ok (s.stack.take nr).reverse s.store
       | .br _ s => .ok (s.stack.take nr).reverse s.store
       | .ret s => .ok (s.stack.take nr).reverse s.store
@@ -711,12 +798,12 @@ def callFn (E : Env) (R : Rec) (f : Nat) (args : List V) (st0 : Store) : CallRes
       | .unsup w => .unsup w
 
 def mkRec (E : Env) : Nat → Rec
-  | 0 => ⟨fun _ _ _ => .oog, fun _ _ _ => .oog⟩
-  | n+1 => ⟨callFn E (mkRec E n), fun bt b s =>
+  | 0 => ⟨fun _ _ _ => .oog, fun _ _ _ _ => .oog⟩
+  | n+1 => ⟨callFn E (mkRec E n), fun lt bt b s =>
       if s.store.fuel = 0 then .oog
-      else execI E.types E.fsigs (mkRec E n) (.loop bt b) { s with store := { s.store with fuel := s.store.fuel - 1 } }⟩
+      else execI (E.ctx lt) (mkRec E n) (.loop bt b) { s with store := { s.store with fuel := s.store.fuel - 1 } }⟩
 
-/-- invoke function `f` with `gas` units -/
+/-- invoke the function with uid `u` with `gas` units -/
 def invoke (E : Env) (gas : Nat) : CallFn :=
   fun f args st => (mkRec E (gas + 1)).call f args { st with fuel := gas }
 
